@@ -15,6 +15,7 @@
    is written here; no shared tensor library is used. *)
 From Coq Require Import QArith Qcanon Qcabs ZArith List Arith Bool Lia.
 From Verif.lib Require Import Bsp.
+From Verif.C19 Require Model.
 Import ListNotations.
 Open Scope Qc_scope.
 
@@ -78,18 +79,9 @@ Definition grid_eval_transformed (f : func) (grid : list (list Qc)) (geo : geoma
 Definition compose (f : func) (geo : geomap) : func := fun x t => f (geo x) t.
 
 (* ---- Greville abscissae: bspline.py:164-174 --------------------------- *)
-Definition qmin (a b : Qc) : Qc := if qleb a b then a else b.
-Definition qmax (a b : Qc) : Qc := if qleb a b then b else a.
-Definition clip (lo hi x : Qc) : Qc := qmin (qmax x lo) hi.                 (* np.clip *)
-Definition Nq (n : nat) : Qc := Zq (Z.of_nat n).
-
-Definition greville (kv : list Qc) (p : nat) : list Qc :=
-  match p with
-  | O => map (fun i => (kn kv (S i) + kn kv i) / Nq 2) (seq 0 (length kv - 1))
-  | _ => map (fun i => clip (kn kv 0) (kn kv (length kv - 1))
-                         (sumn p (fun j => kn kv (i + 1 + j) * (1 / Nq p))))
-             (seq 0 (length kv - p - 1))
-  end.
+(* the transcription of KnotVector.greville is C19's (coq/C19/Model.v: np.convolve / np.clip
+   semantics of coq/lib/NpQ.v, validated there bit-for-bit); C19 proves its position theorems *)
+Definition greville (kv : list Qc) (p : nat) : list Qc := Verif.C19.Model.greville kv p.
 
 (* ---- collocation ------------------------------------------------------ *)
 Definition collocation (kv : list Qc) (p : nat) (nodes : list Qc) : mat :=
